@@ -197,6 +197,7 @@ func (c *Ctx) EffectiveField(fn *ssa.Function, cell *ssa.Alloc, field string, at
 // SyncOption: C03.O1 - at each badger.Open in production the effective SyncWrites is true and InMemory is false,
 // and the directory is the constructor's path parameter.
 func (c *Ctx) SyncOption(prop string) {
+	c.FilesUntouched(prop) // the database files are touched by badger alone
 	rule := "C03.O1 sync"
 	n := 0
 	for _, fn := range c.P.ModuleFuncs() {
